@@ -7,13 +7,14 @@ import (
 
 	"golang.org/x/tools/go/ssa"
 
+	"oapsa/internal/prog"
 	"oapsa/internal/walk"
 )
 
 func init() {
 	register(&Prop{
 		ID:          "C15",
-		Explanation: "Decides which request data can reach the bypass decisions: the string given to every skip-auth route regex is, on every path, query- and fragment-free — the Path of url.Parse(u), u cut at the first '?', or u itself under the fact that it contains no '?', where u is the guarded request-URI accessor's result (taint rule, unknown origin = violation); isAllowedMethod is true only for an empty rule method or equality with req.Method, isAllowedRoute only when both predicates hold for the same route element, isAllowedPath returns the negated match exactly under route.negate, and the rule builder upper-cases the method and sets negate from '!='; preflight needs the flag and OPTIONS (C01.R4); isTrustedIP is true only as trustedIPs.Has(ip) for the non-nil, error-free result of GetClientIP(p.realClientIPParser, req); NetSet.Has is true only on a hit of ipNetMap.has for the same address, which is a lookup of Mask(ip, m.mask).String(); AddIPNet inserts IP.String() only into a per-mask map whose mask size was compared equal to the network's (or recurses after creating one with the network's mask), and both sides select the family through getNetMaps; ParseIPNet rejects CIDRs with host bits set. Added during the build: the address used for the trusted-IP decision is parsed from the first comma-separated element of the configured header (R6). Round 3: the host-bit test compares ipNet.IP with the address exactly as parsed (under R5); the header parser exists only under reverse-proxy mode (R7); remote-address rule (R8).",
+		Explanation: "Decides which request data can reach the bypass decisions: the string given to every skip-auth route regex is, on every path, query- and fragment-free — the Path of url.Parse(u), u cut at the first '?', or u itself under the fact that it contains no '?', where u is the guarded request-URI accessor's result (taint rule, unknown origin = violation); isAllowedMethod is true only for an empty rule method or equality with req.Method, isAllowedRoute only when both predicates hold for the same route element, isAllowedPath returns the negated match exactly under route.negate, and the rule builder upper-cases the method and sets negate from '!='; preflight needs the flag and OPTIONS (C01.R4); isTrustedIP is true only as trustedIPs.Has(ip) for the non-nil, error-free result of GetClientIP(p.realClientIPParser, req); NetSet.Has is true only on a hit of ipNetMap.has for the same address, which is a lookup of Mask(ip, m.mask).String(); AddIPNet inserts IP.String() only into a per-mask map whose mask size was compared equal to the network's (or recurses after creating one with the network's mask), and both sides select the family through getNetMaps; ParseIPNet rejects CIDRs with host bits set. Added during the build: the address used for the trusted-IP decision is parsed from the first comma-separated element of the configured header (R6). Round 3: the host-bit test compares ipNet.IP with the address exactly as parsed (under R5); the header parser exists only under reverse-proxy mode (R7); remote-address rule (R8). Round 4: the operand of the rule match is the decoded path (url.URL.Path), never the percent-encoded spelling (under R1); the operator's skip-auth routes, skip-auth regexes and trusted-IP entries are never rewritten between option loading and the code that compiles them (R9).",
 		NotDecided:  "the regular-expression engine, CIDR mask arithmetic over all addresses, IPv4-mapped IPv6 normalisation inside net.IP (values).",
 		Run:         runC15,
 	})
@@ -31,10 +32,12 @@ func runC15(c *Ctx) {
 	runC15R6(c, "R6-client-first-element")
 	r.Rule("R7-header-parser-only-in-reverse-proxy", "the real-client-IP header parser is installed only under reverse-proxy mode (shared with C16.R4)", 1)
 	runParserUnderFlag(c, "R7-header-parser-only-in-reverse-proxy")
+	r.Rule("R9-rules-reach-matcher-verbatim", "the operator's skip-auth routes, skip-auth regexes and trusted-IP entries are never rewritten between option loading and the code that compiles them (no element store, reordering or reassignment outside pkg/apis/options)", 3)
 	r.Rule("R8-remote-address", "without a header parser the client address is the host part of RemoteAddr that net.ParseIP accepted", 2)
 	runRemoteIPRule(c, "R8-remote-address")
 
 	checkBypassOperand(c, "R1-query-free-match")
+	runC15R9(c, "R9-rules-reach-matcher-verbatim")
 	pathRegexF := c.Field("R2-route-predicates", "main.allowedRoute.pathRegex")
 
 	// ---- R2 ---------------------------------------------------------------------------------
@@ -176,7 +179,7 @@ func runC15(c *Ctx) {
 				switch walk.FieldOf(fa.X.Type(), fa.Field) {
 				case methodF:
 					okM := true
-					for _, o := range c.origins(st.Val, 0) {
+					for _, o := range c.originsThroughHelpers(st.Val, 0) {
 						if k, isK := o.(*ssa.Const); isK {
 							if s, _ := ConstString(k); s != "" {
 								okM = false
@@ -194,7 +197,7 @@ func runC15(c *Ctx) {
 						c.bad(rule, "builder-method|"+fnKey(build), in, "a rule's method is stored without strings.ToUpper: lower-case configuration never matches req.Method", nil, 0)
 					}
 				case negateF:
-					for _, o := range c.origins(st.Val, 0) {
+					for _, o := range c.originsThroughHelpers(st.Val, 0) {
 						if call, ok := o.(*ssa.Call); ok && isStd(&call.Call, "strings", "Contains") {
 							if s, _ := ConstString(call.Call.Args[1]); s == "!=" {
 								neg = true
@@ -337,8 +340,11 @@ func (c *Ctx) queryFree(rule string, v ssa.Value, getURI *ssa.Function, depth in
 		// load of .Path / .RawPath of a URL
 		if fa, ok := x.X.(*ssa.FieldAddr); ok && x.Op == token.MUL {
 			f := walk.FieldOf(fa.X.Type(), fa.Field)
-			if f != nil && (f.Name() == "Path" || f.Name() == "RawPath") && strings.HasSuffix(fa.X.Type().String(), "net/url.URL") {
+			if f != nil && f.Name() == "Path" && strings.HasSuffix(fa.X.Type().String(), "net/url.URL") {
 				return c.urlIsSplit(fa.X, depth)
+			}
+			if f != nil && f.Name() == "RawPath" && strings.HasSuffix(fa.X.Type().String(), "net/url.URL") {
+				return false, encodedSpelling
 			}
 			return false, "field " + f.Name()
 		}
@@ -347,8 +353,8 @@ func (c *Ctx) queryFree(rule string, v ssa.Value, getURI *ssa.Function, depth in
 		if sc == nil {
 			return false, "dynamic call result"
 		}
-		if sc.Name() == "EscapedPath" && len(x.Call.Args) == 1 {
-			return c.urlIsSplit(x.Call.Args[0], depth)
+		if (sc.Name() == "EscapedPath" || sc.Name() == "RequestURI") && sc.Pkg != nil && sc.Pkg.Pkg.Path() == "net/url" {
+			return false, encodedSpelling
 		}
 		if c.P.InModule(sc) {
 			// every return of the callee, path-sensitively
@@ -368,6 +374,11 @@ func (c *Ctx) queryFree(rule string, v ssa.Value, getURI *ssa.Function, depth in
 	}
 	return false, "unrecognised derivation " + v.String()
 }
+
+// encodedSpelling: the rules are matched against the decoded path — the one the upstream router serves. Matching the
+// percent-encoded spelling makes the decision depend on how the client spelt the path (a negated rule is bypassed
+// by /%61dmin, a positive one no longer matches an escaped space).
+const encodedSpelling = "the percent-encoded spelling of the path (EscapedPath/RawPath): the decision then depends on how the client spelt the path, not on the path the upstream serves"
 
 // urlIsSplit: the URL value comes from url.Parse (which separates query and fragment) with a nil error, or is req.URL.
 func (c *Ctx) urlIsSplit(u ssa.Value, depth int) (bool, string) {
@@ -423,7 +434,10 @@ func (c *Ctx) queryFreeOnPath(rule string, p *walk.Path, dv walk.DV, getURI *ssa
 	case *ssa.UnOp:
 		if fa, ok := x.X.(*ssa.FieldAddr); ok && x.Op == token.MUL {
 			f := walk.FieldOf(fa.X.Type(), fa.Field)
-			if f != nil && (f.Name() == "Path" || f.Name() == "RawPath") {
+			if f != nil && f.Name() == "RawPath" {
+				return false, encodedSpelling
+			}
+			if f != nil && f.Name() == "Path" {
 				if ok, why := c.urlIsSplit(fa.X, depth); ok {
 					// the parse must have succeeded on this path when it comes from url.Parse
 					if pc, ok := extractOfCall(p, p.Op(fa.X, p.Op(fa, r)), 0); ok && isStd(pc.C, "net/url", "Parse") {
@@ -736,7 +750,7 @@ func checkBypassOperand(c *Ctx, rule string) {
 					if ok2 {
 						c.ok(rule, key, in, "operand is query- and fragment-free: "+why)
 					} else {
-						c.bad(rule, key, in, "a skip-auth rule is matched against a string that can carry the query or fragment: "+why, nil, 0)
+						c.bad(rule, key, in, "a skip-auth rule is matched against something other than the decoded, query- and fragment-free request path: "+why, nil, 0)
 					}
 				}
 			}
@@ -1036,4 +1050,50 @@ func runC15R2Combined(c *Ctx, rule string, isAllowedRoute *ssa.Function, methodF
 			c.bad(rule, key, p.Exit, "isAllowedRoute can return true without the rule's regex verdict, negated exactly when route.negate is set", p, at)
 		}
 	})
+}
+
+// runC15R9: buildRoutesAllowlist compiles each rule from the option strings at start-up, and the trusted-IP set is
+// parsed from Options.TrustedIPs. Validation runs in between and looks at the same slices. A "normalising" write-back
+// there (or anywhere else) changes the rule the operator configured before it is compiled — e.g. a route split at
+// every '=' truncates a regular expression that contains one. The rule enumerates every load of the three option
+// fields outside pkg/apis/options and requires each use to be read-only (no element store, no sort/copy into it, no
+// append whose result is stored back), and every store to the fields to be inside pkg/apis/options.
+func runC15R9(c *Ctx, rule string) {
+	for _, name := range []string{"SkipAuthRoutes", "SkipAuthRegex", "TrustedIPs"} {
+		f := c.Field(rule, "pkg/apis/options.Options."+name)
+		if f == nil {
+			continue
+		}
+		n, bad := 0, false
+		for _, fn := range c.P.ModFns {
+			if strings.HasPrefix(prog.Short(prog.FnPkg(fn).Path()), "pkg/apis/options") {
+				continue
+			}
+			for _, b := range fn.Blocks {
+				for _, in := range b.Instrs {
+					ld, ok := in.(*ssa.UnOp)
+					if !ok || !walk.IsFieldLoad(ld, f) {
+						continue
+					}
+					n++
+					if why := mutatesSlice(c, ld, 0); why != "" {
+						bad = true
+						c.bad(rule, "mutated|"+name+"|"+fnKey(fn), in, "the operator's "+name+" list is "+why+" before the matcher is built from it: the rule that is enforced is no longer the rule that was configured", nil, 0)
+					}
+				}
+			}
+		}
+		for _, ref := range c.fieldRefs(f) {
+			if ref.Kind == "store" && !strings.HasPrefix(prog.Short(prog.FnPkg(ref.Fn).Path()), "pkg/apis/options") {
+				bad = true
+				c.bad(rule, "field-store|"+name+"|"+fnKey(ref.Fn), ref.In, "Options."+name+" is reassigned outside option loading", nil, 0)
+			}
+		}
+		switch {
+		case n == 0:
+			c.R.Unknown(rule, "readers|"+name, "-", "no reader of Options."+name+" found")
+		case !bad:
+			c.R.OK(rule, "read-only|"+name, "-", sprintf("%d load(s) of Options.%s outside option loading, all read-only", n, name))
+		}
+	}
 }
